@@ -392,6 +392,9 @@ class ChallengeScenario(Scenario):
             elif dk == "digest":
                 salt = hashlib.sha512(b"salt%d" % i).digest()[: refcrypto.DIGEST_SIZE[alg]]
                 f["dv"] = [salt.hex(), refcrypto.salted_hash(alg, salt, b"default!pw").hex()]
+                # how the application obtained the digest value it declares: built from stored salt and digest, or created
+                # from the plaintext with a salt of its own choice (of the digest's length, or longer: "will be truncated")
+                f["made"] = rng.choice(["parts", "parts", "create", "create-long-salt"])
             if f["where"] == "list":
                 f["default"] = "none"
             if rng.random() < 0.3:
@@ -410,7 +413,12 @@ class ChallengeScenario(Scenario):
             if f["default"] == "plain":
                 kw["default"] = f["dv"]
             elif f["default"] == "digest":
-                kw["default"] = DigestValue(bytes.fromhex(f["dv"][0]), bytes.fromhex(f["dv"][1]), getattr(hashlib, f["alg"]))
+                salt0 = bytes.fromhex(f["dv"][0])
+                if f.get("made", "parts") == "parts":
+                    kw["default"] = DigestValue(salt0, bytes.fromhex(f["dv"][1]), getattr(hashlib, f["alg"]))
+                else:
+                    given = salt0 if f["made"] == "create" else salt0 + b"-and-more"
+                    kw["default"] = DigestValue.create(b"default!pw", getattr(hashlib, f["alg"]), salt=given)
             if f.get("env"):
                 kw["env"] = "C09_%s" % f["key"].upper()
                 if f["env"] == "empty":
